@@ -427,8 +427,12 @@ func (r *RouteTable) OnIfaceStateChanged(ifaceName string, ifIndex int, state if
 		oldIfIndex, ok := r.ifaceNameToIndex[ifaceName]
 		if ok && oldIfIndex != ifIndex {
 			// Interface renumbered.  For example, deleted and then recreated
-			// with same name.  Clean up old number.
+			// with same name.  Clean up old number, including its state:
+			// otherwise, if the old index is later reused by another
+			// interface in the same state, refreshAllIfaceStates sees "no
+			// change" and never learns about that interface.
 			delete(r.ifaceIndexToName, oldIfIndex)
+			delete(r.ifaceIndexToState, oldIfIndex)
 		}
 		r.ifaceNameToIndex[ifaceName] = ifIndex
 		r.ifaceIndexToName[ifIndex] = ifaceName
